@@ -125,7 +125,9 @@ var theWorker *decWorker
 
 func startWorker() *decWorker {
 	self, _ := os.Executable()
-	cmd := exec.Command(self, "decode-worker")
+	// address-space cap: an input that makes the code under test allocate without bound kills the worker
+	// (reported as a crash) instead of the machine
+	cmd := exec.Command("sh", "-c", `ulimit -v 6291456 2>/dev/null; exec "$0" decode-worker`, self)
 	cmd.Env = os.Environ()
 	in, _ := cmd.StdinPipe()
 	outp, _ := cmd.StdoutPipe()
